@@ -36,7 +36,7 @@ scratch copy of `/repo`'s HEAD, the unedited test suite still passes there (196)
 0 without and non-zero with the change, and the quick check of the broken property is run against the copy
 (`MOSROMGR_SRC`).  They are kept under `seeded/<id>/` (patch.diff, demo.py, notes.md, check_result.json,
 meta.json); `tools/try_all_seeded.sh` re-runs all of them.  **All %d are caught by the quick check of the property
-they break: %d with a failing input replayed on the real code, %d (round 5: `R5A_2`, `R5B_3`, `R5C_3`, `R5D_3`) by failed
+they break: %d with a failing input replayed on the real code, %d (round 5: `R5A_2`, `R5B_3`, `R5D_3`) by failed
 obligations alone (`VIOLATION ... no-failing-input-found`, the replay file names the obligations and carries the
 solver output; the stand-in has no history / input for them yet).**  The last column says what the deductive part
 did on its own: obligations that fail on the changed source, or *tool limit* when the change moved the function
@@ -116,7 +116,8 @@ What the misses of each round exposed, and what was strengthened:
   overload: five checks, 80 solver processes on 16 cores).  Now: two collections built from one reader list
   (`from_string` and `from_file`) are part of the C13 histories, and `MosCollection.merge` has the clause
   `strict_mode_lets_the_error_class_of_the_failing_message_escape` (C07+C09: the exception leaving is the one
-  `ro += mo` raised, or one of the same class raised from it).  `R5D_2` (`assert` instead of `raise` in `_validate`,
+  `ro += mo` raised, or one of the same class raised from it); the C07 stand-in now also demands the exact class
+  for a message behind the roDelete in a strict merge and for a second `merge()` of a completed collection.  `R5D_2` (`assert` instead of `raise` in `_validate`,
   wrong only under `python -O`) fails two obligations of `_validate` and is replayed by the stand-in, which already
   ran every construction under `-O` as well.
 
